@@ -256,7 +256,11 @@ class Explorer:
                         fin.append(q)
                 out = fin
             return out
-        if isinstance(s, (ast.FunctionDef, ast.AsyncFunctionDef, ast.ClassDef, ast.Pass, ast.Import, ast.ImportFrom, ast.Global, ast.Nonlocal, ast.Delete)):
+        if isinstance(s, ast.Delete):
+            for t in s.targets:
+                st.events.append(Event("delete", s, resolve_target(t, st), None))
+            return [st]
+        if isinstance(s, (ast.FunctionDef, ast.AsyncFunctionDef, ast.ClassDef, ast.Pass, ast.Import, ast.ImportFrom, ast.Global, ast.Nonlocal)):
             return [st]
         if isinstance(s, ast.Assert):
             st.events.append(Event("expr", s, resolve(s.test, st), "assert"))
@@ -312,3 +316,44 @@ def expr_from(template, **parts):
 
 def same(a, b):
     return a is not None and b is not None and norm(a) == norm(b)
+
+
+def truth(expr, atom):
+    """Truth of a resolved test under a valuation of its atoms: atom(node) -> True/False/None (unknown)."""
+    if isinstance(expr, ast.BoolOp):
+        vs = [truth(v, atom) for v in expr.values]
+        if isinstance(expr.op, ast.And):
+            if any(v is False for v in vs):
+                return False
+            return None if any(v is None for v in vs) else True
+        if any(v is True for v in vs):
+            return True
+        return None if any(v is None for v in vs) else False
+    if isinstance(expr, ast.UnaryOp) and isinstance(expr.op, ast.Not):
+        v = truth(expr.operand, atom)
+        return None if v is None else not v
+    if isinstance(expr, ast.Constant):
+        return bool(expr.value)
+    return atom(expr)
+
+
+def consistent(paths_, atom, start=0):
+    """Paths whose every test (from event index `start`) has the outcome the valuation gives it.
+    -> (paths, [texts of tests the valuation does not decide])"""
+    out, unknown = [], []
+    for q in paths_:
+        ok = True
+        for e in q.events[start:]:
+            if e.kind != "test" or not isinstance(e.resolved, ast.AST):
+                continue
+            v = truth(e.resolved, atom)
+            if v is None:
+                unknown.append(norm(e.resolved))
+                ok = False
+                break
+            if v != e.extra:
+                ok = False
+                break
+        if ok:
+            out.append(q)
+    return out, unknown
